@@ -224,6 +224,11 @@ where
         }
     }
 
+    // No limb is shifted out: there is no carry to start from
+    if steps == 0 {
+        ZNXARI::znx_zero(carry);
+    }
+
     // Continues with shifted normalization
     for j in 0..size - steps {
         ZNXARI::znx_copy(tmp, res.at(res_col, size - steps - j - 1));
